@@ -114,7 +114,7 @@ def run(tier, seed):
         cpu, bpa, big = carriers[i % 3] if len(p) > 13 else carriers[0]
         names = [s["n"] for s in p if s["k"] == "label"]
         names = sorted(set(names))
-        src = render(p, cpu, i)
+        src = A.layout(render(p, cpu, i), i)
         cid = "m%d" % i
         meta[cid] = (i, cpu, bpa, big, names, src)
         cases.append((cid, "syms=%s imgmax=20000" % ";".join(names), src))
